@@ -6,7 +6,7 @@ import "fmt"
 func unnamedEntry() Entry {
 	return Entry{Name: "unnamed", Build: func(f *Frag) {
 		f.Solo = true
-		form := f.N("form", 16)
+		form := f.N("form", 17)
 		switch form {
 		case 11, 12: // a definition that carries a number of ANOTHER kind (#N / !N), N off the running count, between unnamed globals and functions
 			filler := "attributes #2 = { nounwind }"
@@ -20,6 +20,13 @@ func unnamedEntry() Entry {
 			f.TopLine("@p = global i32* @2")
 			f.TopLine("@r = global i32* @0")
 			f.TopLine("define void @3() {\n  %%v = load i32, i32* @2\n  store i32 %%v, i32* @0\n  ret void\n}")
+		case 16: // an unnamed block and a block NAMED like its number in one function, both address-taken
+			f.TopLine("@a = global i8* blockaddress(@f, %%1)")
+			f.TopLine("@b = global i8* blockaddress(@f, %%\"1\")")
+			f.TopLine("@c = global i8* blockaddress(@f, %%\"2\")")
+			f.TopLine("@d = global i8* blockaddress(@f, %%2)")
+			f.TopLine("define void @f() {\n  br label %%1\n1:\n  br label %%\"1\"\n\"1\":\n  br label %%\"2\"\n\"2\":\n  br label %%2\n2:\n  ret void\n}")
+			f.TopLine("uselistorder_bb @f, %%\"1\", { 1, 0 }")
 		case 13: // unnamed globals and functions in comdats NAMED like an ID (their own, a neighbour's)
 			f.TopLine("$\"0\" = comdat any")
 			f.TopLine("$\"1\" = comdat any")
